@@ -14,7 +14,12 @@ namespace Mdsort.Props
 open Mdsort Mdsort.Model
 
 /-- The status table: 0/1 from the sticky error flag in maildir mode; with `-`: 75 iff an error
-occurred, else 1 iff a reject was executed, else 0 (constants regenerated from mdsort.c). -/
+occurred, else 1 iff a reject was executed, else 0 (constants regenerated from mdsort.c).
+
+(Audit au1: the first conjunct is how `mainP` ends - `finish st = (exitStatus env st, st)` on every path - and holds by
+unfolding; the content is the two regenerated constants and, through the correspondence run, that `main` of mdsort.c ends the
+same way.  WHICH events set `error` / `reject` is `C04_error_iff_partial`; that `reject` is set ONLY by an executed reject
+action ("1 only for a matched reject") is not a theorem of this file.) -/
 theorem C04_status_table (env : PEnv) (orc : EvalOracles) (ok : Bool) (conf : List ConfBlock) (files : Files) (input : Bytes)
     (w : World) (plan : Plan) :
     let r := (runPlan plan (mainP env orc ok conf files input) w 0 []).1
@@ -52,7 +57,11 @@ the trace is `tr`, for the message named `src`:
   nothing): allowed. -/
 
 /-- **Frame.**  Processing one message mentions, in its mutating calls, only the message's own name
-and names this run created itself - for every oracle of results and from every trace so far. -/
+and names this run created itself - for every oracle of results and from every trace so far.
+
+(Audit au1: `Framed` constrains NAMES, not (directory, name) pairs - the directory handle of `unlinkat` / `renameat` /
+`utimensat` is unconstrained, so an entry of the same name in ANOTHER directory is inside the frame.  The world-level
+frame with directories is `C01_message_no_loss`, second conjunct, for `runPlan`.) -/
 theorem C04_frame (env : PEnv) (orc : EvalOracles) (expr : Expr) (md : Maildir) (name : Bytes) (st : MainSt)
     (orcl : Nat → Call → Res) (i0 : Nat) (tr0 : List (Call × Res)) :
     ∀ i c r, tr0.length ≤ i → (runOracle orcl (processMessage env orc expr md name st) i0 tr0).2[i]? = some (c, r) →
@@ -151,7 +160,14 @@ theorem C04_walk_error_iff (env : PEnv) (orc : EvalOracles) (expr : Expr) (fuel 
   Proofs.walk_error_oracle_iff env orc expr fuel md st orcl i tr
 
 /-- **The whole run (`C04_error_iff`, with the per-message action failures kept as the error value of
-`matchesExec`).**  The error flag `main` derives its exit status from is set iff one of the causes
+`matchesExec`).**  (Audit au1: `Proofs.MainErr` / `PathsErr` / `WalkErr` / `msgError` are written as a mirror of the loops of
+`mainP`, re-running the sub-programs (`runO orcl (walk ...)`, `runO orcl (matchesExec ...)`) to obtain the state and call index
+of the next step; the theorem therefore says: the flag is the disjunction of the enumerated top-level causes and of the error
+values of the sub-programs, nothing is swallowed in between and nothing else sets it.  It does not by itself say which libc
+failures make `matchesExec` / `messageParseP` report an error - that is `C01_fault_reported` and the `All`-lemmas on the
+scripts.  Fuel: the walks inside are `walk .. (2n+8)` / `walk .. 64`; an oracle whose `readdir` keeps returning names makes the
+MODEL stop silently when the fuel is spent (no cause `WalkErr` for that), where mdsort would go on - the statement is about
+the model's truncated walk in that case, the conformance run reports the divergence.)  The error flag `main` derives its exit status from is set iff one of the causes
 `Proofs.MainErr` (Proofs/WorldFrameMain.lean) occurred in this run: the configuration file cannot be
 opened; the configuration is not valid; or - unless `-n` - for some block and some selected path of
 it (`Proofs.PathsErr`, `Proofs.BlocksErr`): the stdin spool cannot be set up, the path or path +
@@ -174,7 +190,9 @@ example :
 
 /-- **Isolation of the calls of a whole run in maildir mode** (`-` not given): every call is a
 `readdir` or satisfies the frame condition for the name the last `readdir` returned (between walks
-only the configuration file, `opendir` and `closedir` are used). -/
+only the configuration file, `opendir` and `closedir` are used).  (Audit au1: each walk inside `mainP` has fuel `2n+8`, `n` =
+registered files of the maildir; under an oracle that lists more entries than that the model's run is shorter than mdsort's.
+The walk-level statement `C04_isolation_calls` holds for EVERY fuel, so nothing is lost for the frame itself.) -/
 theorem C04_isolation_calls_main (env : PEnv) (orc : EvalOracles) (ok : Bool) (conf : List ConfBlock) (files : Files)
     (input : Bytes) (hm : env.stdinMode = false) (orcl : Nat → Call → Res) :
     ∀ i c r, (runOracle orcl (mainP env orc ok conf files input) 0 []).2[i]? = some (c, r) →
@@ -242,7 +260,8 @@ theorem C04_stdin_zero_means_stored (env : PEnv) (orc : EvalOracles) (conf : Lis
   Proofs.stdin_exit0 env orc conf files input expr w plan hm hs hc hin hfresh
 
 /-- In stdin mode the status is 75 iff an error occurred, else 1 iff a reject was executed, else 0 -
-as equivalences on the final loop state, for every configuration, input and fault plan. -/
+as equivalences on the final loop state, for every configuration, input and fault plan.  (Audit au1: a reading of
+`exitStatus` on the two flags of the final state - "a reject was executed" is the flag `reject`, not an event of the run.) -/
 theorem C04_stdin_status (env : PEnv) (orc : EvalOracles) (ok : Bool) (conf : List ConfBlock) (files : Files) (input : Bytes)
     (w : World) (plan : Plan) (hm : env.stdinMode = true) :
     let r := (runPlan plan (mainP env orc ok conf files input) w 0 []).1
@@ -259,6 +278,85 @@ theorem C04_reject_no_call (env : PEnv) (mh : Match) (st : ExecSt) (h : mh.ty = 
 example (st : ExecSt) : execOne Proofs.StdinExample.env0 { ty := .reject, lno := 1, part := 0 } st =
     Prog.ret ({ st with reject := true }, false) :=
   C04_reject_no_call _ _ _ rfl
+
+/-! ### "1 only for a matched reject" at the level of one action list (added by audit au1)
+
+`C04_reject_no_call` says what a reject entry does.  The converse - nothing ELSE sets the flag - was not a theorem: -/
+
+/-- Every leaf of `execOne`: the reject flag is set only if it was set before or the entry is a reject. -/
+theorem all_execOne_reject (env : PEnv) (mh : Match) (st : ExecSt) :
+    Proofs.World.All (fun r => r.1.reject = true → st.reject = true ∨ mh.ty = .reject) (execOne env mh st) := by
+  unfold execOne
+  cases hty : mh.ty <;> simp only [Proofs.World.bind_eq, Proofs.World.pure_eq] <;>
+    repeat' (first
+      | exact (fun h => Or.inl h)
+      | exact (fun _ => Or.inr trivial)
+      | (apply Proofs.World.All.bind_of_forall; intro _)
+      | split
+      | intro _)
+
+theorem all_mono_au1 {α} {R P : α → Prop} {p : Prog α} (hp : Proofs.World.All R p) (h : ∀ a, R a → P a) :
+    Proofs.World.All P p := by
+  induction p with
+  | ret a => exact h a hp
+  | call c k ih => intro r; exact ih r (hp r)
+
+/-- Every leaf of `matchesExec`: the flag is set only if it was set before or the list contains a reject entry. -/
+theorem all_matchesExec_reject (env : PEnv) (ml : MatchList) (st : ExecSt) :
+    Proofs.World.All (fun r => r.1.reject = true → st.reject = true ∨ ∃ m ∈ ml, m.ty = .reject) (matchesExec env ml st) := by
+  induction ml generalizing st with
+  | nil =>
+    unfold matchesExec
+    simp only [Proofs.World.bind_eq, Proofs.World.pure_eq]
+    split
+    · exact Proofs.World.All.bind_of_forall _ fun _ => (fun h => Or.inl h)
+    · exact fun h => Or.inl h
+  | cons mh rest ih =>
+    unfold matchesExec
+    simp only [Proofs.World.bind_eq, Proofs.World.pure_eq]
+    refine Proofs.World.All.bind (all_mono_au1 (all_execOne_reject env mh st) ?_)
+    rintro ⟨st', e⟩ h1
+    have key : st'.reject = true → st.reject = true ∨ ∃ m ∈ mh :: rest, m.ty = .reject := by
+      intro h
+      rcases h1 h with h | h
+      · exact .inl h
+      · exact .inr ⟨mh, List.mem_cons_self, h⟩
+    dsimp only
+    split
+    · split
+      · exact Proofs.World.All.bind_of_forall _ fun _ => key
+      · exact key
+    · refine all_mono_au1 (ih st') ?_
+      intro r hr h
+      rcases hr h with h | ⟨m, hm, hmt⟩
+      · exact key h
+      · exact .inr ⟨m, List.mem_cons_of_mem _ hm, hmt⟩
+
+/-- **The reject flag comes from a reject entry only.**  For every action list, start state whose flag is clear (as
+`processMessage` starts it: `reject := false`) and ARBITRARY call results: if `matches_exec` returns with the flag set, the
+list contains a reject entry.  With `C04_stdin_status` (status 1 iff no error and the flag) and the line
+`reject := st1.reject || xs.reject` of `processMessage` this is "1 only for a matched reject" for one message; the lift
+through `walk` / `mainP` (the flag of the loop state is the disjunction over the messages) is NOT proved here. -/
+theorem C04_reject_only_by_reject (env : PEnv) (ml : MatchList) (st : ExecSt) (orcl : Nat → Call → Res) (i : Nat)
+    (tr : List (Call × Res)) (hs : st.reject = false)
+    (h : (runOracle orcl (matchesExec env ml st) i tr).1.1.reject = true) : ∃ m ∈ ml, m.ty = .reject := by
+  have hall := Proofs.Own.all_runO (all_matchesExec_reject env ml st) orcl i
+  rw [Proofs.Own.runOracle_eq] at h
+  rcases hall h with h' | h'
+  · rw [hs] at h'; cases h'
+  · exact h'
+
+/-- Non-vacuity: the one-entry list `reject` from a state with the flag clear returns with the flag set (no call at all). -/
+example (st : ExecSt) (hs : st.reject = false) :
+    (runOracle (fun _ _ => .ok 0) (matchesExec Proofs.StdinExample.env0 [{ ty := .reject, lno := 1, part := 0 }] st) 0 []).1.1.reject = true ∧
+    st.reject = false := by
+  refine ⟨?_, hs⟩
+  unfold matchesExec
+  rw [show execOne Proofs.StdinExample.env0 { ty := .reject, lno := 1, part := 0 } st = Prog.ret ({ st with reject := true }, false)
+    from C04_reject_no_call _ _ _ rfl]
+  unfold matchesExec
+  cases hc : st.chsrc <;> simp [Proofs.World.bind_eq, Proofs.World.pure_eq, Prog.bind, runOracle, maildirClose] <;>
+    (cases st.src.dirH <;> simp [runOracle, Prog.bind])
 
 /-! ## An evaluation error reaches the root of the rule tree
 
@@ -546,6 +644,24 @@ theorem C04_command_failure_is_error (env : Env) (root : Msg) (lno : Nat) (argv 
   rw [Proofs.eval_command, hav]
   simp only [hrc, Proofs.execValue_outcome, Proofs.commandTri_outcome]
   rw [(Proofs.outcomeTri_error_iff _).2 h]
+
+/-- An environment whose command oracle is `exec()` on a child that exited with 127 (its `execvp` failed). -/
+def c04exCmdEnv : Env where
+  rx := fun _ _ => .nomatch
+  command := fun _ => Model.execValue true (.ok 7) (.ok (127 * 256))
+  isDir := fun _ => false
+  now := 0
+  strptime := fun _ => none
+  zoneName := fun _ => none
+  fileTime := fun _ => none
+  dryrun := false
+  path := []
+
+/-- Non-vacuity, all hypotheses at once (added by audit au1): `command "x"` in that environment evaluates to ERROR by the
+theorem. -/
+example : (eval c04exCmdEnv (parseMessage []) (.command 1 [[120]]) 0 (parseMessage []) { ml := [], flags := ⟨0, 0⟩ }).1 = .error := by
+  rw [C04_command_failure_is_error c04exCmdEnv (parseMessage []) 1 [[120]] [[120]] 0 (parseMessage []) { ml := [], flags := ⟨0, 0⟩ }
+    (by decide +kernel) true (.ok 7) (.ok (127 * 256)) rfl (.inr (by decide))]
 
 /-- Non-vacuity: the child's `execvp` failed (exit 127, wait status 127 * 256); `fork` failed. -/
 example :
